@@ -107,6 +107,11 @@ func solveOblig(q *Q, o *Oblig, timeoutS int) {
 	sl := solverList(timeoutS)
 	usesStrEq := strings.Contains(o.Goal.S, "str_eq") || strings.Contains(o.Guard.S, "str_eq") || strings.Contains(strings.Join(q.lines[:o.UpTo], "\n"), "str_eq")
 	var attempts []attempt
+	hasQuant := strings.Contains(strings.Join(q.lines[:o.UpTo], "\n"), "(forall ")
+	if o.Expect != "sat" && (hasQuant || usesStrEq) {
+		// first, cheaply: with every quantified hypothesis dropped (fewer hypotheses: 'unsat' is still a proof)
+		attempts = append(attempts, attempt{sl[0], "noquant"})
+	}
 	attempts = append(attempts, attempt{sl[0], "define"})
 	if usesStrEq {
 		attempts = append(attempts, attempt{sl[0], "axioms"})
@@ -116,13 +121,10 @@ func solveOblig(q *Q, o *Oblig, timeoutS int) {
 		attempts = append(attempts, attempt{sl[1], "axioms"})
 	}
 	attempts = append(attempts, attempt{sl[2], "define"})
-	if o.Expect != "sat" {
-		// last resort, only to find a candidate counterexample: all quantified hypotheses dropped
-		attempts = append(attempts, attempt{sl[0], "noquant"}, attempt{sl[1], "noquant"})
-	}
 	if o.Expect == "sat" {
 		attempts = attempts[:1] // reachability covers: one cheap attempt; 'unknown' is acceptable there
 	}
+	candidate := ""
 	for _, at := range attempts {
 		sp := at.sp
 		sc := obligScript(q, o, true, at.variant)
@@ -148,10 +150,12 @@ func solveOblig(q *Q, o *Oblig, timeoutS int) {
 			continue
 		}
 		if at.variant == "noquant" {
-			if r.status == "sat" {
-				o.Status, o.Solver = "failed", sp.name+"/noquant(candidate model: quantified hypotheses dropped)"
-				o.Model = r.out
+			if r.status == "unsat" {
+				o.Status, o.Solver = "proved", sp.name+"/noquant"
 				return
+			}
+			if r.status == "sat" {
+				candidate = r.out
 			}
 			continue
 		}
@@ -167,6 +171,11 @@ func solveOblig(q *Q, o *Oblig, timeoutS int) {
 		if r.status == "error" && o.Model == "" {
 			o.Model = sp.name + " error: " + firstLines(r.out, 5)
 		}
+	}
+	if o.Expect != "sat" && candidate != "" {
+		o.Status, o.Solver = "failed", "z3-new/noquant(candidate model: quantified hypotheses dropped); "+strings.Join(tried, ",")
+		o.Model = candidate
+		return
 	}
 	if o.Expect == "sat" {
 		// no solver refuted reachability; not a proof of reachability either
